@@ -1192,7 +1192,6 @@ class HasDataSpecification(metaclass=abc.ABCMeta):
         self.embedded_data_specifications = list(embedded_data_specifications)
 
 
-@_string_constraints.constrain_version_type("version")
 @_string_constraints.constrain_identifier("template_id")
 class AdministrativeInformation(HasDataSpecification):
     """
@@ -1242,6 +1241,19 @@ class AdministrativeInformation(HasDataSpecification):
         self.creator: Optional[Reference] = creator
         self.template_id: Optional[Identifier] = template_id
         self.embedded_data_specifications: List[EmbeddedDataSpecification] = list(embedded_data_specifications)
+
+    def _get_version(self) -> Optional[VersionType]:
+        return self._version
+
+    def _set_version(self, version: Optional[VersionType]) -> None:
+        if version is None and getattr(self, "_revision", None) is not None:
+            raise AASConstraintViolation(5, "A revision requires a version. The version can not be removed while "
+                                            "there is a revision. Please remove the revision first.")
+        if version is not None:
+            _string_constraints.check_version_type(version)
+        self._version: Optional[VersionType] = version
+
+    version = property(_get_version, _set_version)
 
     def _get_revision(self):
         return self._revision
